@@ -1,15 +1,18 @@
 pub mod c15;
+pub mod c17;
 
 pub fn gen(prop: &str, thorough: bool, seed: u64, out: &mut Vec<String>) {
     let mut rng = crate::rng::Rng::new(seed);
     match prop {
         "C15" => c15::gen(thorough, &mut rng, out),
+        "C17" => c17::gen(thorough, &mut rng, out),
         _ => panic!("unknown property {}", prop),
     }
 }
 pub fn oracle(prop: &str, line: &str) -> String {
     let r = std::panic::catch_unwind(|| match prop {
         "C15" => c15::oracle(line),
+        "C17" => c17::oracle(line),
         _ => "na".to_string(),
     });
     r.unwrap_or_else(|_| "fail oracle-panic".into())
@@ -17,6 +20,7 @@ pub fn oracle(prop: &str, line: &str) -> String {
 pub fn tag(prop: &str, line: &str) -> String {
     match prop {
         "C15" => c15::tag(line),
+        "C17" => c17::tag(line),
         _ => "-".to_string(),
     }
 }
